@@ -260,6 +260,18 @@ func main() {
 			if err := k.AddWhitelistPermission(c, actor, govtypes.PermChangeTxFee); err != nil {
 				panic(err)
 			}
+		} else if r.Chance(60) {
+			// holds every OTHER permission (directly and through role sudo), but not the change permission
+			actor := govtypes.NewDefaultActor(proposer)
+			k.SaveNetworkActor(c, actor)
+			for pv := 1; pv <= 66; pv++ {
+				if govtypes.PermValue(pv) == govtypes.PermChangeTxFee {
+					continue
+				}
+				a, _ := k.GetNetworkActorByAddress(c, proposer)
+				_ = k.AddWhitelistPermission(c, a, govtypes.PermValue(pv))
+			}
+			_ = k.AssignRoleToAccount(c, proposer, govtypes.RoleSudo)
 		}
 		var err error
 		p := hx.Try(func() {
